@@ -172,7 +172,8 @@ enum Input {
     CkptRewind { k: u32 },
     Raw(u8),
 }
-const TOOL_KINDS: u8 = 12;
+const TOOL_KINDS: u8 = 13;
+const TASK_CMDS: u8 = 6;
 
 #[derive(Clone, Debug)]
 enum Op {
@@ -192,6 +193,11 @@ enum Op {
     CursorUpdated { c: u32, cursor: u8, num: Option<u64>, endpoint: bool, model: bool, run: bool, text: Txt },
     Session { input: Input, link: Option<u32>, wait: bool },
     Task { cmd: u8, title: Option<Txt>, num: Option<u64> },
+    /// the rebuildable cache directory (or the files of one thread, or one thread's full sidecar) disappears
+    /// while the store object stays alive
+    LoseCaches { which: u8, c: u32 },
+    /// what a late subscriber of the thread gets as its past: `ContinuityStore::replay_events`
+    Replay { c: u32 },
 }
 
 fn op_name(op: &Op) -> &'static str {
@@ -220,6 +226,8 @@ fn op_name(op: &Op) -> &'static str {
             (Input::Raw(_), _) => "session_raw",
         },
         Op::Task { .. } => "task",
+        Op::LoseCaches { .. } => "lose_caches",
+        Op::Replay { .. } => "replay_events",
     }
 }
 
@@ -254,6 +262,11 @@ fn op_json(op: &Op) -> Value {
         Op::CursorUpdated { c, cursor, num, endpoint, model, run, text } => json!({"c": c, "cursor": cursor, "num_bits": num, "endpoint": endpoint, "model": model, "run": run, "text": txt_json(text)}),
         Op::Session { input, link, wait } => json!({"input": input_json(input), "link": link, "wait": wait}),
         Op::Task { cmd, title, num } => json!({"cmd": cmd, "title": ot(title), "num_bits": num}),
+        Op::LoseCaches { which, c } => {
+            let w = ["continuity_streams/", "every cache file of the thread", "the thread's full sidecar"][(*which % 3) as usize];
+            json!({"which": w, "c": c})
+        }
+        Op::Replay { c } => json!({"c": c}),
     };
     json!({"op": name, "p": body})
 }
@@ -317,7 +330,9 @@ fn gen_cont_op(r: &mut Rng) -> Op {
         1 => Some(false),
         _ => Some(true),
     };
-    match r.below(100) {
+    match r.below(109) {
+        100..=103 => Op::LoseCaches { which: r.below(3) as u8, c },
+        104..=108 => Op::Replay { c },
         0..=27 => Op::Message { c, text: gen_txt(r) },
         28..=35 => Op::RunSpawned { c, m: r.below(6) as u32 },
         36..=41 => Op::RunEnded { r: r.below(4) as u32, reason: gen_small_txt(r) },
@@ -347,6 +362,70 @@ fn gen_input(r: &mut Rng) -> Input {
         _ => Input::Raw(r.below(6) as u8),
     }
 }
+
+/// Fixed histories run before the seeded ones on every run (regressions for the states the seeded
+/// generator reaches only with some probability).
+fn builtin_histories() -> Vec<History> {
+    let t = |k: u8, n: u32| Txt { k, n };
+    let msg = |n: u32| Op::Message { c: 0, text: Txt { k: 1, n } };
+    let tool = |tool: u8, link: Option<u32>| Op::Session { input: Input::Tool { tool, text: Txt { k: 1, n: 7 }, num: None, timeout: false }, link, wait: true };
+    let mut v = vec![
+        // the sidecar directory is lost while the store lives, appends follow BEFORE any replay of the thread
+        // (the sidecar is re-created holding only a suffix), then a late subscriber asks for the past
+        (HKind::Cont, vec![Op::EnsureDefault, msg(1), msg(2), Op::LoseCaches { which: 0, c: 0 }, msg(3), msg(4), msg(5), Op::Replay { c: 0 }, msg(6), Op::Replay { c: 0 }]),
+        // the same with one thread's files / one full sidecar; the last loss is followed by appends only
+        (
+            HKind::Cont,
+            vec![
+                Op::EnsureDefault,
+                msg(1),
+                Op::RunSpawned { c: 0, m: 0 },
+                Op::LoseCaches { which: 2, c: 0 },
+                Op::RunEnded { r: 0, reason: t(1, 1) },
+                Op::Replay { c: 0 },
+                msg(2),
+                Op::Branch { c: 0, title: None, from: Cut::Head },
+                Op::LoseCaches { which: 1, c: 0 },
+                msg(3),
+                Op::Message { c: 1, text: t(2, 4) },
+                Op::LoseCaches { which: 0, c: 0 },
+                Op::Replay { c: 1 },
+                msg(5),
+                msg(6),
+            ],
+        ),
+        // tool output inside session runs (stdout / stderr chunks between tool_started and tool_ended) and
+        // task streams whose output arrives while the task runs
+        (
+            HKind::Sess,
+            vec![
+                Op::EnsureDefault,
+                tool(12, None),
+                tool(3, Some(0)),
+                Op::Task { cmd: 5, title: None, num: None },
+                tool(10, None),
+                Op::Task { cmd: 1, title: Some(t(2, 1)), num: None },
+                Op::Task { cmd: 3, title: None, num: None },
+            ],
+        ),
+        // cache loss under a session engine: linked runs append message / run_spawned / side effects / run_ended
+        (
+            HKind::Sess,
+            vec![
+                Op::EnsureDefault,
+                tool(1, Some(0)),
+                Op::LoseCaches { which: 0, c: 0 },
+                tool(12, Some(0)),
+                Op::Replay { c: 0 },
+                Op::LoseCaches { which: 2, c: 0 },
+                Op::Session { input: Input::Prompt(t(2, 3)), link: Some(0), wait: false },
+                msg(9),
+            ],
+        ),
+    ];
+    v.drain(..).enumerate().map(|(k, (kind, ops))| History { seed: 0, index: BUILTIN_BASE + k, kind, ops }).collect()
+}
+const BUILTIN_BASE: usize = 1_000_000;
 
 fn gen_history(seed: u64, index: usize) -> History {
     let mut r = Rng::new(seed.wrapping_mul(1_000_003).wrapping_add(index as u64).wrapping_mul(0x2545_F491_4F6C_DD1D));
@@ -386,7 +465,7 @@ fn gen_history(seed: u64, index: usize) -> History {
             }
             if r.chance(1, 3) {
                 let at = r.below(ops.len() as u64 + 1) as usize;
-                ops.insert(at, Op::Task { cmd: r.below(5) as u8, title: gen_opt_txt(&mut r), num: if r.chance(1, 2) { Some(gen_num_bits(&mut r)) } else { None } });
+                ops.insert(at, Op::Task { cmd: r.below(TASK_CMDS as u64) as u8, title: gen_opt_txt(&mut r), num: if r.chance(1, 2) { Some(gen_num_bits(&mut r)) } else { None } });
             }
         }
     }
@@ -402,6 +481,265 @@ struct Viol {
     class: &'static str,
     what: String,
     detail: Value,
+}
+
+// ------------------------------------------------------------------------------------------------
+// views DURING a history
+//
+// The property speaks about every frame a live subscriber receives: from the moment the emit step of
+// that frame is over, a FRESH reader of the store on disk must find it.  The emitters of a session / task
+// publish a frame on the channel and append it to the log in one critical section (publish first), so
+// "the emit step of frame k is over" is observable without a clock: the same stream's frame k+1 has
+// arrived (the section is serialised), or the run has finished.  Continuity frames are published after
+// the log and sidecar appends, so they must be on disk (log and sidecar) when they arrive.
+// None of this depends on timing: the checks are sound for every interleaving.  The hook below only
+// makes the interesting moment long enough to look at (it never decides a verdict).
+// ------------------------------------------------------------------------------------------------
+
+mod pause {
+    //! While a collector is listening, the emitter is held between "frame k+1 published" and "frame k+1
+    //! appended" (points `sess.sent` / `task.sent`) until a collector has looked at the disk, bounded by
+    //! `PAUSE_MAX`.  At that moment every earlier frame of the stream has been appended and nothing
+    //! after it has touched the shared writer yet.
+    use std::cell::Cell;
+    use std::sync::atomic::{AtomicI64, AtomicU64, Ordering};
+    use std::sync::{Arc, Condvar, Mutex};
+    use std::time::{Duration, Instant};
+
+    pub const PAUSE_MAX: Duration = Duration::from_millis(1500);
+    static SENT: AtomicU64 = AtomicU64::new(0);
+    static ACTIVE: AtomicI64 = AtomicI64::new(0);
+    pub static PAUSES: AtomicU64 = AtomicU64::new(0);
+    pub static TIMEOUTS: AtomicU64 = AtomicU64::new(0);
+    static ACKED: Mutex<u64> = Mutex::new(0);
+    static CV: Condvar = Condvar::new();
+    thread_local! {
+        static MY: Cell<u64> = const { Cell::new(0) };
+    }
+
+    pub fn install() {
+        rip_kernel::verif::set_hook(Some(Arc::new(|name: &'static str| match name {
+            // numbered before it is published: a collector that has the frame sees SENT >= its number
+            "sess.recorded" | "task.recorded" => MY.with(|m| m.set(SENT.fetch_add(1, Ordering::SeqCst) + 1)),
+            "sess.sent" | "task.sent" => {
+                let my = MY.with(|m| m.get());
+                if ACTIVE.load(Ordering::SeqCst) <= 0 {
+                    return;
+                }
+                PAUSES.fetch_add(1, Ordering::Relaxed);
+                let t0 = Instant::now();
+                let mut g = ACKED.lock().unwrap_or_else(|e| e.into_inner());
+                while *g < my && ACTIVE.load(Ordering::SeqCst) > 0 {
+                    let left = match PAUSE_MAX.checked_sub(t0.elapsed()) {
+                        Some(l) if !l.is_zero() => l,
+                        _ => {
+                            TIMEOUTS.fetch_add(1, Ordering::Relaxed);
+                            break;
+                        }
+                    };
+                    g = CV.wait_timeout(g, left.min(Duration::from_millis(50))).unwrap_or_else(|e| e.into_inner()).0;
+                }
+            }
+            _ => {}
+        })));
+    }
+    pub fn uninstall() {
+        rip_kernel::verif::set_hook(None);
+    }
+    pub fn sent_now() -> u64 {
+        SENT.load(Ordering::SeqCst)
+    }
+    pub fn ack(upto: u64) {
+        let mut g = ACKED.lock().unwrap_or_else(|e| e.into_inner());
+        if *g < upto {
+            *g = upto;
+        }
+        CV.notify_all();
+    }
+    /// a collector is listening for as long as this value lives
+    pub struct Listening;
+    pub fn listen() -> Listening {
+        ACTIVE.fetch_add(1, Ordering::SeqCst);
+        Listening
+    }
+    impl Drop for Listening {
+        fn drop(&mut self) {
+            ACTIVE.fetch_sub(1, Ordering::SeqCst);
+            CV.notify_all();
+        }
+    }
+}
+
+/// A reader of a JSONL file that shares nothing with the writer: every `refresh` opens the file anew
+/// and reads the bytes after the last complete line it has seen (only what is on disk counts).
+struct DiskView {
+    path: PathBuf,
+    offset: u64,
+    /// id -> canonical JSON strings of the frames with that id
+    by_id: HashMap<String, Vec<String>>,
+    /// (stream kind, stream id) -> seqs in file order
+    seqs: HashMap<(String, String), Vec<u64>>,
+    frames: usize,
+    bad_lines: usize,
+}
+impl DiskView {
+    fn new(path: PathBuf) -> Self {
+        DiskView { path, offset: 0, by_id: HashMap::new(), seqs: HashMap::new(), frames: 0, bad_lines: 0 }
+    }
+    fn reset(&mut self) {
+        self.offset = 0;
+        self.by_id.clear();
+        self.seqs.clear();
+        self.frames = 0;
+    }
+    fn refresh(&mut self) {
+        use std::io::{Read, Seek, SeekFrom};
+        let Ok(mut f) = std::fs::File::open(&self.path) else {
+            // no file (yet, or removed): nothing is on disk
+            if self.offset > 0 {
+                self.reset();
+            }
+            return;
+        };
+        let len = f.metadata().map(|m| m.len()).unwrap_or(0);
+        if len < self.offset {
+            // the file was replaced by a shorter one (a cache that was lost and re-created)
+            self.reset();
+        }
+        if f.seek(SeekFrom::Start(self.offset)).is_err() {
+            return;
+        }
+        let mut buf = Vec::new();
+        if f.read_to_end(&mut buf).is_err() {
+            return;
+        }
+        let Some(last_nl) = buf.iter().rposition(|b| *b == b'\n') else { return };
+        for line in buf[..last_nl].split(|b| *b == b'\n') {
+            if line.is_empty() {
+                continue;
+            }
+            match serde_json::from_slice::<Event>(line) {
+                Ok(ev) => {
+                    self.frames += 1;
+                    self.seqs.entry((kind_str(ev.stream_kind()).to_string(), ev.stream_id().to_string())).or_default().push(ev.seq);
+                    self.by_id.entry(ev.id.clone()).or_default().push(canon(&ev).to_string());
+                }
+                Err(_) => self.bad_lines += 1,
+            }
+        }
+        self.offset += last_nl as u64 + 1;
+    }
+    fn has(&self, ev: &Event) -> bool {
+        match self.by_id.get(&ev.id) {
+            Some(v) => {
+                let c = canon(ev).to_string();
+                v.iter().any(|s| *s == c)
+            }
+            None => false,
+        }
+    }
+    fn stream_seqs(&self, kind: StreamKind, id: &str) -> Vec<u64> {
+        self.seqs.get(&(kind_str(kind).to_string(), id.to_string())).cloned().unwrap_or_default()
+    }
+}
+
+/// The whole stream as a fresh reader finds it right now (complete lines only), in file order.
+fn disk_stream(path: &Path, kind: StreamKind, id: &str) -> Vec<Value> {
+    let Ok(bytes) = std::fs::read(path) else { return vec![] };
+    let Some(last_nl) = bytes.iter().rposition(|b| *b == b'\n') else { return vec![] };
+    bytes[..last_nl]
+        .split(|b| *b == b'\n')
+        .filter(|l| !l.is_empty())
+        .filter_map(|l| serde_json::from_slice::<Event>(l).ok())
+        .filter(|e| e.stream_kind() == kind && e.stream_id() == id)
+        .map(|e| canon(&e))
+        .collect()
+}
+
+fn seqs_of(v: &[Value]) -> Vec<u64> {
+    v.iter().map(|x| x.get("seq").and_then(|s| s.as_u64()).unwrap_or(u64::MAX)).collect()
+}
+
+/// Follows one session / task stream as a live subscriber and looks at the disk while it runs.
+struct Collector {
+    label: String,
+    kind: StreamKind,
+    stream_id: String,
+    disk: DiskView,
+    /// frames[..confirmed] were found on disk
+    confirmed: usize,
+    failed: bool,
+    checked: u64,
+    viols: Vec<Viol>,
+    listening: Option<pause::Listening>,
+}
+impl Collector {
+    fn new(kind: StreamKind, stream_id: &str, log_path: PathBuf) -> Self {
+        Collector {
+            label: format!("{}/{stream_id}", kind_str(kind)),
+            kind,
+            stream_id: stream_id.to_string(),
+            disk: DiskView::new(log_path),
+            confirmed: 0,
+            failed: false,
+            checked: 0,
+            viols: vec![],
+            listening: Some(pause::listen()),
+        }
+    }
+    fn require_on_disk(&mut self, frames: &[Event], upto: usize, why: &str) {
+        if self.failed || self.confirmed >= upto {
+            return;
+        }
+        self.disk.refresh();
+        for i in self.confirmed..upto {
+            self.checked += 1;
+            let ev = &frames[i];
+            if ev.stream_kind() != self.kind || ev.stream_id() != self.stream_id {
+                // reported by the end-of-history stream check
+                self.confirmed = i + 1;
+                continue;
+            }
+            if self.disk.has(ev) {
+                self.confirmed = i + 1;
+                continue;
+            }
+            let c = canon(ev);
+            let on_disk = self.disk.stream_seqs(self.kind, &self.stream_id);
+            self.failed = true;
+            self.viols.push(Viol {
+                class: "live_frame_not_on_disk",
+                what: format!(
+                    "stream {}: frame #{i} (type {}, seq {}, id {}) was delivered to the live subscriber and {why}, but a fresh reader of {} finds seqs {:?} of that stream ({} frames in the file)",
+                    self.label,
+                    frame_type(&c),
+                    ev.seq,
+                    ev.id,
+                    self.disk.path.display(),
+                    on_disk,
+                    self.disk.frames
+                ),
+                detail: json!({"stream": self.label, "index": i, "type": frame_type(&c), "seq": ev.seq, "frame": short(&c), "received_so_far": frames.len(),
+                    "received_types": frames.iter().map(|e| frame_type(&canon(e))).collect::<Vec<_>>(), "seqs_on_disk": on_disk, "when": why}),
+            });
+            return;
+        }
+    }
+    /// `frames` ends with the frame that has just arrived
+    fn on_frame(&mut self, frames: &[Event]) {
+        let sent = pause::sent_now();
+        let n = frames.len();
+        if n >= 2 {
+            let next = &frames[n - 1];
+            let why = format!("the emitter has since published frame #{} (type {}, seq {})", n - 1, frame_type(&canon(next)), next.seq);
+            self.require_on_disk(frames, n - 1, &why);
+        }
+        pause::ack(sent);
+    }
+    fn on_finished(&mut self, frames: &[Event]) {
+        self.require_on_disk(frames, frames.len(), "the run has finished");
+        pause::ack(pause::sent_now());
+    }
 }
 
 #[derive(Default)]
@@ -434,10 +772,26 @@ impl Stats {
     }
 }
 
+struct Collected {
+    frames: Vec<Event>,
+    res: Result<(), String>,
+    col: Collector,
+}
 struct Pending {
     session_id: String,
-    rx: broadcast::Receiver<Event>,
-    started: Instant,
+    task: tokio::sync::oneshot::Receiver<Collected>,
+}
+
+/// The collector of a session runs on a thread of its own (its own single-threaded runtime): a task on the
+/// engine's runtime would be woken into the slot of the very worker the emitter occupies while it is held.
+fn spawn_collector(rx: broadcast::Receiver<Event>, started: Instant, col: Collector) -> tokio::sync::oneshot::Receiver<Collected> {
+    let (tx, done) = tokio::sync::oneshot::channel();
+    std::thread::spawn(move || {
+        let Ok(rt) = tokio::runtime::Builder::new_current_thread().enable_time().build() else { return };
+        let c = rt.block_on(collect_session(rx, started, col));
+        let _ = tx.send(c);
+    });
+    done
 }
 
 struct Env {
@@ -457,6 +811,20 @@ struct Env {
     task_app: Option<axum::Router>,
     task_live: Live,
     viols: Vec<Viol>,
+    /// fresh-reader views used during the history
+    log_view: DiskView,
+    side_views: HashMap<String, DiskView>,
+    /// live.cont[..cont_checked] were looked up on disk
+    cont_checked: usize,
+    mid_checked: u64,
+    mid_side_checked: u64,
+    /// threads whose full sidecar was lost and not yet rebuilt by a replay the history asked for
+    lost_full: BTreeSet<String>,
+    /// threads whose derived caches (.mr / .comp / indexes) were lost at some point: those files are
+    /// re-created by the next append and never compared with anything (C04's open findings S4*) —
+    /// they are not one of C03's views any more
+    lost_derived: BTreeSet<String>,
+    mid_reported: BTreeSet<&'static str>,
 }
 
 fn kind_str(k: StreamKind) -> &'static str {
@@ -503,6 +871,54 @@ impl Env {
             }
         }
     }
+    /// Every continuity frame the live subscriber has received is published after its log append and its
+    /// sidecar append: a fresh reader must find it in events.jsonl and (unless the history has removed the
+    /// thread's sidecar and not asked for a replay since) in the thread's sidecar, now.
+    fn check_cont_on_disk(&mut self, op_index: usize, op: &str) {
+        if self.cont_checked >= self.live.cont.len() {
+            return;
+        }
+        self.log_view.refresh();
+        let mut refreshed: BTreeSet<String> = BTreeSet::new();
+        for i in self.cont_checked..self.live.cont.len() {
+            let ev = self.live.cont[i].clone();
+            let cid = ev.stream_id().to_string();
+            let c = canon(&ev);
+            self.mid_checked += 1;
+            if !self.log_view.has(&ev) && self.mid_reported.insert("live_frame_not_on_disk") {
+                let on_disk = self.log_view.stream_seqs(StreamKind::Continuity, &cid);
+                self.viols.push(Viol {
+                    class: "live_frame_not_on_disk",
+                    what: format!(
+                        "stream continuity/{cid}: frame type {} seq {} id {} was delivered to the store's live subscriber (op #{op_index} {op}), but a fresh reader of events.jsonl finds seqs {:?} of that stream",
+                        frame_type(&c), ev.seq, ev.id, on_disk
+                    ),
+                    detail: json!({"stream": format!("continuity/{cid}"), "op_index": op_index, "op": op, "frame": short(&c), "seqs_on_disk": on_disk}),
+                });
+            }
+            if ev.stream_kind() != StreamKind::Continuity || self.lost_full.contains(&cid) {
+                continue;
+            }
+            let path = self.data_dir.join("continuity_streams").join(format!("{cid}.jsonl"));
+            let view = self.side_views.entry(cid.clone()).or_insert_with(|| DiskView::new(path));
+            if refreshed.insert(cid.clone()) {
+                view.refresh();
+            }
+            self.mid_side_checked += 1;
+            if !view.has(&ev) && self.mid_reported.insert("live_frame_not_in_sidecar") {
+                let on_disk = view.stream_seqs(StreamKind::Continuity, &cid);
+                self.viols.push(Viol {
+                    class: "live_frame_not_in_sidecar",
+                    what: format!(
+                        "stream continuity/{cid}: frame type {} seq {} id {} was delivered to the store's live subscriber (op #{op_index} {op}), but a fresh reader of the thread's sidecar finds seqs {:?}",
+                        frame_type(&c), ev.seq, ev.id, on_disk
+                    ),
+                    detail: json!({"stream": format!("continuity/{cid}"), "op_index": op_index, "op": op, "frame": short(&c), "seqs_in_sidecar": on_disk}),
+                });
+            }
+        }
+        self.cont_checked = self.live.cont.len();
+    }
     fn cut(&self, cid: &str, c: &Cut) -> (Option<String>, Option<u64>) {
         match c {
             Cut::Head => (None, None),
@@ -541,7 +957,9 @@ fn build_input(env: &Env, input: &Input) -> String {
                 8 => ("ls", Value::Null),
                 9 => ("read", json!({"path": "does/not/exist.txt"})),
                 10 => ("bash", json!({"command": "printf '\\377\\376 bad utf8 \\342\\200\\250 ls\\r\\n'; exit 3"})),
-                _ => ("write", json!({"path": format!("d\u{e9}r/\u{1F600}{}.txt", text.n % 3), "content": s, "append": true})),
+                11 => ("write", json!({"path": format!("d\u{e9}r/\u{1F600}{}.txt", text.n % 3), "content": s, "append": true})),
+                // several output chunks on both pipes between tool_started and tool_ended
+                _ => ("bash", json!({"command": "seq 1 40; printf 'e1\\ne2 \\342\\202\\254\\n' 1>&2; printf 'tail without newline'"})),
             };
             if let (Some(bits), Value::Object(map)) = (num, &mut args) {
                 map.insert("zz_num".to_string(), num_value(*bits));
@@ -580,21 +998,39 @@ fn build_input(env: &Env, input: &Input) -> String {
     }
 }
 
-async fn collect_session(p: &mut Pending, out: &mut Vec<Event>) -> Result<(), String> {
-    loop {
-        let left = SESSION_TIMEOUT.checked_sub(p.started.elapsed()).unwrap_or(Duration::from_millis(1));
-        match tokio::time::timeout(left, p.rx.recv()).await {
-            Ok(Ok(ev)) => out.push(ev),
-            Ok(Err(RecvError::Closed)) => return Ok(()),
-            Ok(Err(RecvError::Lagged(n))) => return Err(format!("session receiver lagged by {n}")),
-            Err(_) => return Err("timeout".to_string()),
+async fn collect_session(mut rx: broadcast::Receiver<Event>, started: Instant, mut col: Collector) -> Collected {
+    let mut out: Vec<Event> = Vec::new();
+    let res = loop {
+        let left = SESSION_TIMEOUT.checked_sub(started.elapsed()).unwrap_or(Duration::from_millis(1));
+        match tokio::time::timeout(left, rx.recv()).await {
+            Ok(Ok(ev)) => {
+                out.push(ev);
+                col.on_frame(&out);
+            }
+            Ok(Err(RecvError::Closed)) => {
+                // every sender is gone: run_session has returned, every emit step is over
+                col.on_finished(&out);
+                break Ok(());
+            }
+            Ok(Err(RecvError::Lagged(n))) => break Err(format!("session receiver lagged by {n}")),
+            Err(_) => break Err("timeout".to_string()),
         }
-    }
+    };
+    col.listening = None;
+    Collected { frames: out, res, col }
 }
 
-async fn finish_pending(env: &mut Env, mut p: Pending) {
-    let mut got = Vec::new();
-    let res = collect_session(&mut p, &mut got).await;
+async fn finish_pending(env: &mut Env, p: Pending) {
+    let Collected { frames: got, res, col } = match p.task.await {
+        Ok(c) => c,
+        Err(e) => {
+            env.viols.push(Viol { class: "harness_setup", what: format!("collector of session {} failed: {e}", p.session_id), detail: json!({}) });
+            return;
+        }
+    };
+    env.mid_checked += col.checked;
+    env.viols.extend(col.viols.iter().cloned());
+    drop(col);
     for ev in &got {
         if let EventKind::CheckpointCreated { checkpoint_id, .. } = &ev.kind {
             env.checkpoints.push(checkpoint_id.clone());
@@ -651,7 +1087,7 @@ fn task_terminal(ev: &Event) -> bool {
 }
 
 /// reads the task's SSE stream (past + live frames) until the terminal status frame
-async fn task_sse(app: &axum::Router, task_id: &str) -> Result<Vec<Event>, String> {
+async fn task_sse(app: &axum::Router, task_id: &str, col: &mut Collector) -> Result<Vec<Event>, String> {
     use http_body_util::BodyExt;
     use tower::ServiceExt;
     let req = axum::http::Request::builder()
@@ -686,6 +1122,7 @@ async fn task_sse(app: &axum::Router, task_id: &str) -> Result<Vec<Event>, Strin
                     let rest = rest.strip_prefix(' ').unwrap_or(rest);
                     let ev: Event = serde_json::from_str(rest).map_err(|e| format!("sse frame does not parse: {e}: {rest}"))?;
                     out.push(ev);
+                    col.on_frame(&out);
                 }
             }
         }
@@ -702,12 +1139,14 @@ async fn run_task_op(env: &mut Env, cmd: u8, title: &Option<Txt>, num: &Option<u
         env.task_app = Some(ripd::verif::build_app(env.task_dir.join("data"), ws, None));
     }
     let app = env.task_app.clone().unwrap();
-    let command = match cmd % 5 {
+    let command = match cmd % TASK_CMDS {
         0 => "printf 'h\\303\\251llo \\360\\237\\230\\200\\n'",
         1 => "printf 'out\\n'; printf 'err \\342\\200\\250\\n' 1>&2; exit 7",
         2 => "printf '\\377\\376\\n'; printf 'tail'",
         3 => "seq 1 300",
-        _ => "",
+        4 => "",
+        // output that arrives while the task keeps running: several delta frames with time in between
+        _ => "printf 'tick\\n'; sleep 0.25; printf 'err\\n' 1>&2; sleep 0.25; printf 'tock\\n'; sleep 0.25; printf 'done'",
     };
     let mut args = json!({"command": command});
     if let Some(bits) = num {
@@ -722,23 +1161,35 @@ async fn run_task_op(env: &mut Env, cmd: u8, title: &Option<Txt>, num: &Option<u
         return Err(format!("POST /tasks -> {status}"));
     }
     let task_id = v.get("task_id").and_then(|x| x.as_str()).unwrap_or_default().to_string();
-    match task_sse(&app, &task_id).await {
+    let mut col = Collector::new(StreamKind::Task, &task_id, env.task_dir.join("data").join("events.jsonl"));
+    let sse = task_sse(&app, &task_id, &mut col).await;
+    col.listening = None;
+    match sse {
         Ok(frames) => {
             // the terminal frame is broadcast before it is logged and before the snapshot is written
             let snap = env.task_dir.join("data").join("task_snapshots").join(format!("{task_id}.json"));
             let t0 = Instant::now();
+            let mut settled = false;
             while t0.elapsed() < SNAPSHOT_GRACE {
                 if let Ok(evs) = rip_log::read_snapshot(&snap) {
                     if evs.len() >= frames.len() {
+                        settled = true;
                         break;
                     }
                 }
                 tokio::time::sleep(Duration::from_millis(5)).await;
             }
+            if settled {
+                col.on_finished(&frames);
+            }
+            env.mid_checked += col.checked;
+            env.viols.extend(col.viols.iter().cloned());
             env.task_live.tasks.push((task_id, frames));
             Ok(())
         }
         Err(e) => {
+            env.mid_checked += col.checked;
+            env.viols.extend(col.viols.iter().cloned());
             env.task_live.unfinished.insert(task_id.clone());
             if e == "timeout" {
                 env.viols.push(Viol { class: "session_timeout", what: format!("task {task_id} did not reach a terminal status within {:?}", SESSION_TIMEOUT), detail: json!({"task_id": task_id}) });
@@ -925,8 +1376,10 @@ async fn exec_op(env: &mut Env, i: usize, op: &Op) -> Result<(), String> {
             }
             // the handle is moved into the engine: once run_session returns every sender is gone and
             // the receiver reports Closed — our "run finished" signal (snapshot + run_ended are written before)
+            let col = Collector::new(StreamKind::Session, &sid, env.data_dir.join("events.jsonl"));
+            let task = spawn_collector(rx, Instant::now(), col);
             engine.spawn_session(handle, text, run_link, None);
-            let p = Pending { session_id: sid, rx, started: Instant::now() };
+            let p = Pending { session_id: sid, task };
             if *wait {
                 finish_pending(env, p).await;
             } else {
@@ -935,6 +1388,100 @@ async fn exec_op(env: &mut Env, i: usize, op: &Op) -> Result<(), String> {
             Ok(())
         }
         Op::Task { cmd, title, num } => run_task_op(env, *cmd, title, num).await,
+        Op::LoseCaches { which, c } => {
+            // no run is in flight while the files go away: the state afterwards is "everything appended so
+            // far is gone from the cache, nothing else" (any later append re-creates files holding a suffix)
+            let pend: Vec<Pending> = std::mem::take(&mut env.pending);
+            for p in pend {
+                finish_pending(env, p).await;
+            }
+            env.drain_cont();
+            env.check_cont_on_disk(i, "lose_caches(before)");
+            let dir = env.data_dir.join("continuity_streams");
+            match which % 3 {
+                0 => {
+                    let _ = std::fs::remove_dir_all(&dir);
+                    let all: Vec<String> = env.conts.clone();
+                    for cid in all {
+                        env.lost_full.insert(cid.clone());
+                        env.lost_derived.insert(cid);
+                    }
+                    // threads the history does not know by index (children of refused ops do not exist; defaults do)
+                    for ev in &env.live.cont {
+                        env.lost_full.insert(ev.stream_id().to_string());
+                        env.lost_derived.insert(ev.stream_id().to_string());
+                    }
+                }
+                1 => {
+                    let cid = env.cont_id(*c);
+                    for f in list_files(&dir) {
+                        if f.starts_with(&format!("{cid}.")) {
+                            let _ = std::fs::remove_file(dir.join(f));
+                        }
+                    }
+                    env.lost_full.insert(cid.clone());
+                    env.lost_derived.insert(cid);
+                }
+                _ => {
+                    let cid = env.cont_id(*c);
+                    let _ = std::fs::remove_file(dir.join(format!("{cid}.jsonl")));
+                    env.lost_full.insert(cid.clone());
+                    // the indexes over the full sidecar now describe a file that is gone
+                    env.lost_derived.insert(cid);
+                }
+            }
+            Ok(())
+        }
+        Op::Replay { c } => {
+            let cid = env.cont_id(*c);
+            let log_path = env.data_dir.join("events.jsonl");
+            // Appends of runs in flight may land around the call.  Lower bound: every frame of the thread the
+            // live subscriber already has (a frame is published after its log and sidecar appends).  Upper
+            // bound: the log read after the call (the log append comes first).
+            env.drain_cont();
+            let before: Vec<Value> = env.live.cont.iter().filter(|e| e.stream_id() == cid).map(canon).collect();
+            let got = store.replay_events(&cid);
+            let after = disk_stream(&log_path, StreamKind::Continuity, &cid);
+            env.mid_checked += 1;
+            match got {
+                Ok(evs) => {
+                    let r: Vec<Value> = evs.iter().map(canon).collect();
+                    let ok = r.len() >= before.len() && r.len() <= after.len() && r.iter().zip(after.iter()).all(|(a, b)| a == b) && r.iter().zip(before.iter()).all(|(a, b)| a == b);
+                    if !ok {
+                        let at = r.iter().zip(after.iter()).position(|(a, b)| a != b);
+                        env.viols.push(Viol {
+                            class: "replay_differs_from_log",
+                            what: format!(
+                                "stream continuity/{cid}: replay_events (the past a late subscriber gets) returned {} frames with seqs {:?}; the live subscriber already has seqs {:?} and a fresh reader of events.jsonl finds {} frames with seqs {:?}{}",
+                                r.len(),
+                                seqs_of(&r),
+                                seqs_of(&before),
+                                after.len(),
+                                seqs_of(&after),
+                                at.map(|k| format!("; first difference at position {k}: {} vs {}", short(&r[k]), short(&after[k]))).unwrap_or_default()
+                            ),
+                            detail: json!({"stream": format!("continuity/{cid}"), "op_index": i, "replay_seqs": seqs_of(&r), "log_seqs": seqs_of(&after), "live_seqs_before_call": seqs_of(&before)}),
+                        });
+                    }
+                    // the store has looked at the sidecar and (if it refused it) rebuilt it from the log
+                    if env.lost_full.remove(&cid) {
+                        env.side_views.remove(&cid);
+                        // frames of this thread received so far are checked against the rebuilt file from now on
+                    }
+                    Ok(())
+                }
+                Err(e) => {
+                    if !after.is_empty() {
+                        env.viols.push(Viol {
+                            class: "replay_differs_from_log",
+                            what: format!("stream continuity/{cid}: replay_events failed ({e}) while a fresh reader of events.jsonl finds {} frames of the thread", after.len()),
+                            detail: json!({"stream": format!("continuity/{cid}"), "op_index": i, "error": e.to_string(), "log_seqs": seqs_of(&after)}),
+                        });
+                    }
+                    Err(e.to_string())
+                }
+            }
+        }
     }
 }
 
@@ -978,6 +1525,14 @@ async fn run_ops(kind: HKind, ops: &[Op], scratch: &Path) -> Result<RunReport, S
         task_app: None,
         task_live: Live::default(),
         viols: vec![],
+        log_view: DiskView::new(data_dir.join("events.jsonl")),
+        side_views: HashMap::new(),
+        cont_checked: 0,
+        mid_checked: 0,
+        mid_side_checked: 0,
+        lost_full: BTreeSet::new(),
+        lost_derived: BTreeSet::new(),
+        mid_reported: BTreeSet::new(),
     };
     let mut stats = Stats::default();
 
@@ -989,20 +1544,26 @@ async fn run_ops(kind: HKind, ops: &[Op], scratch: &Path) -> Result<RunReport, S
             Err(_) => stats.bump(&format!("op_err.{name}")),
         }
         env.drain_cont();
+        env.check_cont_on_disk(i, name);
     }
     let pend: Vec<Pending> = std::mem::take(&mut env.pending);
     for p in pend {
         finish_pending(&mut env, p).await;
     }
     env.drain_cont();
+    env.check_cont_on_disk(ops.len(), "end of history");
+    stats.bump_by("mid.live_frames_looked_up_in_log", env.mid_checked);
+    stats.bump_by("mid.live_frames_looked_up_in_sidecar", env.mid_side_checked);
+    stats.checks += env.mid_checked + env.mid_side_checked;
 
     // ---------------- compare the views
     let mut viols = std::mem::take(&mut env.viols);
     let mut views = serde_json::Map::new();
     let store = env.store.clone();
-    compare_dir(&data_dir, &env.live, Some(store.as_ref()), &mut stats, &mut viols, &mut views, "");
+    let lost = Lost { full: env.lost_full.clone(), derived: env.lost_derived.clone() };
+    compare_dir(&data_dir, &env.live, Some(store.as_ref()), &lost, &mut stats, &mut viols, &mut views, "");
     if env.task_app.is_some() {
-        compare_dir(&env.task_dir.join("data"), &env.task_live, None, &mut stats, &mut viols, &mut views, "tasks.");
+        compare_dir(&env.task_dir.join("data"), &env.task_live, None, &Lost::default(), &mut stats, &mut viols, &mut views, "tasks.");
     }
     drop(env);
     Ok(RunReport { viols, stats, views: Value::Object(views) })
@@ -1166,8 +1727,14 @@ fn list_files(dir: &Path) -> Vec<String> {
     v
 }
 
+#[derive(Default)]
+struct Lost {
+    full: BTreeSet<String>,
+    derived: BTreeSet<String>,
+}
+
 #[allow(clippy::too_many_arguments)]
-fn compare_dir(data_dir: &Path, live: &Live, store: Option<&ContinuityStore>, stats: &mut Stats, viols: &mut Vec<Viol>, views: &mut serde_json::Map<String, Value>, tag: &str) {
+fn compare_dir(data_dir: &Path, live: &Live, store: Option<&ContinuityStore>, lost: &Lost, stats: &mut Stats, viols: &mut Vec<Viol>, views: &mut serde_json::Map<String, Value>, tag: &str) {
     let log_path = data_dir.join("events.jsonl");
     if !log_path.exists() {
         // nothing was ever appended (every op failed before the first frame)
@@ -1289,7 +1856,14 @@ fn compare_dir(data_dir: &Path, live: &Live, store: Option<&ContinuityStore>, st
             compare_lists(&label, "log", &log_canon, "broadcast", &bc, stats, viols);
             check_inclusion(&label, "broadcast", &b, &log, stats, viols);
         }
-        // (3) sidecar
+        // (3) sidecar.  A thread whose sidecar the history removed: the sidecar view is what the store serves
+        // from it — its read path looks at the file first and rebuilds it from the log when it refuses it
+        if lost.full.contains(cid) {
+            stats.bump("note.sidecar_lost_in_history_read_through_the_store_first");
+            if let Some(st) = store {
+                let _ = st.replay_events(cid);
+            }
+        }
         let side_path = side_dir.join(format!("{cid}.jsonl"));
         if side_path.exists() {
             match read_jsonl(&side_path) {
@@ -1329,6 +1903,10 @@ fn compare_dir(data_dir: &Path, live: &Live, store: Option<&ContinuityStore>, st
             (".mr.v1.jsonl", "sidecar_mr", (|e: &Event| matches!(e.kind, EventKind::ContinuityMessageAppended { .. } | EventKind::ContinuityRunEnded { .. })) as fn(&Event) -> bool),
             (".comp.v1.jsonl", "sidecar_comp", (|e: &Event| matches!(e.kind, EventKind::ContinuityCompactionCheckpointCreated { .. })) as fn(&Event) -> bool),
         ] {
+            if lost.derived.contains(cid) {
+                stats.bump(&format!("note.{name}_lost_in_history_not_a_view"));
+                continue;
+            }
             let p = side_dir.join(format!("{cid}{suffix}"));
             let expect: Vec<Value> = log_evs.iter().filter(|e| pred(e)).map(canon).collect();
             if p.exists() {
@@ -1501,7 +2079,7 @@ pub fn run_histories(seed: u64, n_histories: usize, max_lines: usize) -> HistOut
         emitted_lines: vec![],
         notes: vec![],
     };
-    let rt = match tokio::runtime::Builder::new_multi_thread().worker_threads(2).enable_all().build() {
+    let rt = match tokio::runtime::Builder::new_multi_thread().worker_threads(4).enable_all().build() {
         Ok(rt) => rt,
         Err(e) => {
             out.notes.push(format!("tokio runtime could not be built: {e}"));
@@ -1513,8 +2091,10 @@ pub fn run_histories(seed: u64, n_histories: usize, max_lines: usize) -> HistOut
     let mut shrunk = 0usize;
     let mut view_frames: BTreeMap<String, u64> = BTreeMap::new();
 
-    for index in 0..n_histories {
-        let h = gen_history(seed, index);
+    pause::install();
+    let all: Vec<History> = builtin_histories().into_iter().chain((0..n_histories).map(|i| gen_history(seed, i))).collect();
+    for h in all {
+        let index = h.index;
         out.histories += 1;
         let bump = |d: &mut BTreeMap<String, u64>, k: String, n: u64| *d.entry(k).or_insert(0) += n;
         bump(&mut out.distribution, format!("hist.kind.{}", if h.kind == HKind::Cont { "continuity_store" } else { "session_engine" }), 1);
@@ -1603,6 +2183,9 @@ pub fn run_histories(seed: u64, n_histories: usize, max_lines: usize) -> HistOut
         }
     }
 
+    pause::uninstall();
+    out.distribution.insert("mid.emitter_held_for_a_look".to_string(), pause::PAUSES.load(std::sync::atomic::Ordering::Relaxed));
+    out.distribution.insert("mid.emitter_hold_expired".to_string(), pause::TIMEOUTS.load(std::sync::atomic::Ordering::Relaxed));
     for (k, v) in view_frames {
         out.distribution.insert(format!("view_frames.{k}"), v);
     }
